@@ -1551,7 +1551,8 @@ impl UnitOffsets {
     #[inline]
     fn debug_info_offset(&self, entry: UnitEntryId) -> Option<DebugInfoOffset> {
         debug_assert_eq!(self.base_id, entry.base_id);
-        let offset = self.entries[entry.index];
+        // The offsets are empty if the unit was skipped instead of being written.
+        let offset = *self.entries.get(entry.index)?;
         if offset.0 == 0 { None } else { Some(offset) }
     }
 
